@@ -9,8 +9,11 @@ package zzverif
 import (
 	"encoding/json"
 	"fmt"
+	"io/fs"
 	"os"
+	"path/filepath"
 	"strconv"
+	"time"
 )
 
 type replayFile struct {
@@ -334,3 +337,70 @@ func FSTruncate(name string, n int) {
 func FSBadUse() int        { return 0 }
 func FSOps() int           { return 0 }
 func FSCrashAfter(k int)   {}
+
+// FSList: base names of the files directly inside dir, sorted.
+func FSList(dir string) []string {
+	ents, _ := os.ReadDir(dir)
+	var res []string
+	for _, e := range ents {
+		if !e.IsDir() {
+			res = append(res, e.Name())
+		}
+	}
+	return res
+}
+
+// FSCopyTree copies every file below src to the same place below dst (a
+// directory snapshot: what a killed process leaves behind).
+func FSCopyTree(src, dst string) {
+	filepath.Walk(src, func(path string, info os.FileInfo, err error) error {
+		if err != nil {
+			return nil
+		}
+		rel, _ := filepath.Rel(src, path)
+		if info.IsDir() {
+			os.MkdirAll(filepath.Join(dst, rel), 0o755)
+			return nil
+		}
+		FSCopyFile(path, filepath.Join(dst, rel))
+		return nil
+	})
+}
+
+func FSCopyFile(src, dst string) {
+	b, err := os.ReadFile(src)
+	if err != nil {
+		return
+	}
+	os.MkdirAll(filepath.Dir(dst), 0o755)
+	os.WriteFile(dst, b, 0o644)
+}
+
+func FSRemove(name string) { os.Remove(name) }
+
+// DirEnt / FileInf: what the engine's os.ReadDir returns (the in-memory file
+// system has no os-level directory entries). Unused natively.
+type DirEnt struct {
+	N   string
+	Sz  int64
+	Dir bool
+}
+
+func (d DirEnt) Name() string { return d.N }
+func (d DirEnt) IsDir() bool  { return d.Dir }
+func (d DirEnt) Type() fs.FileMode {
+	if d.Dir {
+		return fs.ModeDir
+	}
+	return 0
+}
+func (d DirEnt) Info() (fs.FileInfo, error) { return FileInf{d}, nil }
+
+type FileInf struct{ D DirEnt }
+
+func (f FileInf) Name() string       { return f.D.N }
+func (f FileInf) Size() int64        { return f.D.Sz }
+func (f FileInf) Mode() fs.FileMode  { return f.D.Type() | 0o644 }
+func (f FileInf) ModTime() time.Time { return time.Time{} }
+func (f FileInf) IsDir() bool        { return f.D.Dir }
+func (f FileInf) Sys() any           { return nil }
